@@ -331,6 +331,17 @@ class Runner:
             mt = re.search(r" = (\S+)\s*$", res["out"])
             fc = w.digest_table.get(mt.group(1)) if mt else None
             line["hashed"] = {"f": fc[0], "c": fc[1]} if fc else {"f": "?", "c": "BAD"}
+        if self.spec.get("env_obs"):
+            # C13: byte-level view of every history file, keyed by its root-relative path
+            hb = []
+            for p_, meta in sorted(post_snap.items()):
+                if meta[0] == "f" and (p_.startswith(w.root + os.sep)) and "ascmhl" in os.path.relpath(p_, w.root).split(os.sep):
+                    hb.append({"p": os.path.relpath(p_, w.root).replace(os.sep, "/"), "sha": meta[1]})
+            line["hbytes"] = hb
+            line["wrote"] = bool(new_manifests)
+            line["copies"] = []
+            if k == "create" and res["exit"] == 0:
+                line["copies"] = self.copy_verify(op)
         if os.environ.get("VERIF_KEEP_TEXT"):
             line["stdout"], line["stderr"] = res["out"], res["err"]
         self.i += 1
@@ -356,6 +367,22 @@ class Runner:
                 gens.append(g)
             h["gens"] = gens
             out.append(h)
+        return out
+
+    def copy_verify(self, op):
+        """verify in place, then copy the sealed tree to other locations and verify there"""
+        import shutil
+
+        w = self.w
+        src = w.cpath(tuple(op["R"]))
+        orig = w.run(C.verify, [src])["exit"]
+        out = []
+        for k, sub in enumerate(["copies/plain/volcopy", "copies/ascmhl/volcopy", "copies/k_t.tmp/.DS_Store/volcopy"]):
+            dst = os.path.join(w.base, sub + "-%d" % self.i)
+            shutil.copytree(src, dst, symlinks=True)
+            e = w.run(C.verify, [dst])["exit"]
+            out.append({"where": sub, "exit": e, "orig": orig})
+            shutil.rmtree(os.path.join(w.base, "copies"), ignore_errors=True)
         return out
 
     def touch_some(self):
